@@ -737,3 +737,88 @@ contract(
              "forall(i, 0, len(x), x['logL'][i] == old(x['logL'])[i] and "
              "x['logP'][i] == old(x['logP'])[i])"],
 )
+
+
+# ---- RescaleToBounds with the log PRE-rescaling (as the distance
+# ---- reparameterisation configures it): x' = rescale(log x - offset)
+contract(
+    RS, "log_with_log_jacobian", variant_name="pre", props=["C07"],
+    log_domain=True, params={"x": "Seq(Real)"},
+    requires=["forall(i, 0, len(x), x[i] > 0)"],
+    returns="Tuple(Seq(Real),Seq(Real))",
+    ensures=["len(result[0]) == len(x) and len(result[1]) == len(x)",
+             "forall(i, 0, len(x), result[0][i] == LOG(x[i]) and "
+             "result[1][i] == -LOG(x[i]))",
+             "forall(i, 0, len(x), E(result[0][i]) == x[i])"],
+)
+contract(
+    RS, "exp_with_log_jacobian", variant_name="pre", props=["C07"],
+    log_domain=True, params={"x": "Seq(Real)"},
+    returns="Tuple(Seq(Real),Seq(Real))",
+    ensures=["len(result[0]) == len(x) and len(result[1]) == len(x)",
+             "forall(i, 0, len(x), result[0][i] == E(x[i]) and "
+             "result[1][i] == x[i])"],
+)
+shape("RescaleToBoundsPre", dict(
+    SHAPES_RP := {
+        "parameters": "PyConst(['a', 'b'])",
+        "prime_parameters": "PyConst(['a_prime', 'b_prime'])",
+        "has_pre_rescaling": "Bool", "has_post_rescaling": "Bool",
+        "boundary_inversion": "PyConst(False)",
+        "offsets": D2, "_rescale_factor": D2, "_rescale_shift": D2,
+        "bounds": "Dict(a:PyList(Real,2),b:PyList(Real,2))"},
+    pre_rescaling="Fn(nessai/utils/rescaling.py:log_with_log_jacobian)",
+    pre_rescaling_inv="Fn(nessai/utils/rescaling.py:exp_with_log_jacobian)"),
+    cls="RescaleToBounds")
+# (in this family the two affine helpers are inlined: their bodies are
+# proved as the '#seq' variants; inlining keeps the exponential of the sum
+# syntactically the one the postcondition states)
+for _fn in ("_rescale_to_bounds", "_inverse_rescale_to_bounds"):
+    contract(RR, f"RescaleToBounds.{_fn}", variant_name="pre",
+             props=["C07"], inline=True, verify=False)
+
+
+def _ul(p):
+    return (f"((LOG(x['{p}'][i]) - self.offsets['{p}'] - "
+            f"self.bounds['{p}'][0]) / {_w(p)})")
+
+
+PRE_REQ = ["len(x) == len(x_prime) and len(log_j) == len(x)",
+           "self.has_pre_rescaling and not self.has_post_rescaling",
+           "forall(i, 0, len(x), x['a'][i] > 0 and x['b'][i] > 0)"] + [
+    f"self.bounds['{p}'][0] < self.bounds['{p}'][1] and "
+    f"self._rescale_factor['{p}'] > 0" for p in "ab"]
+contract(
+    RR, "RescaleToBounds.reparameterise", variant_name="pre", props=["C07"],
+    log_domain=True, self_shape="RescaleToBoundsPre",
+    params={"x": XS, "x_prime": XP, "log_j": "Seq(Real)",
+            "compute_radius": "Bool", "**kwargs": {}},
+    requires=PRE_REQ, modifies=["x_prime", "log_j"], returns="Any",
+    ident_name="RescaleToBounds.reparameterise#pre",
+    ensures=["len(x_prime) == old(len(x_prime)) and "
+             "len(log_j) == old(len(log_j))"] + [
+        f"forall(i, 0, len(x), x_prime['{p}_prime'][i] == "
+        f"self._rescale_factor['{p}'] * {_ul(p)} + "
+        f"self._rescale_shift['{p}'])" for p in "ab"] + [
+        KEEP_XP,
+        # d/dx [F (log x - c) / W + S] = F / (W x): log-Jacobian
+        # log F - log W - log x, per parameter
+        "forall(i, 0, len(x), log_j[i] == old(log_j)[i] + " + " + ".join(
+            f"(LOG(self._rescale_factor['{p}']) - LOG({_w(p)}) - "
+            f"LOG(x['{p}'][i]))" for p in "ab") + ")"],
+)
+contract(
+    RR, "RescaleToBounds.inverse_reparameterise", variant_name="pre",
+    props=["C07"], log_domain=True, self_shape="RescaleToBoundsPre",
+    params={"x": XS, "x_prime": XP, "log_j": "Seq(Real)", "**kwargs": {}},
+    requires=[r for r in PRE_REQ if "x['a'][i] > 0" not in r],
+    modifies=["x", "log_j"], returns="Any",
+    ident_name="RescaleToBounds.inverse_reparameterise#pre",
+    ensures=["len(x) == old(len(x)) and len(log_j) == old(len(log_j))"] + [
+        f"forall(i, 0, len(x), x['{p}'][i] == E({_back(p)}))"
+        for p in "ab"] + [
+        KEEP_X,
+        "forall(i, 0, len(x), log_j[i] == old(log_j)[i] + " + " + ".join(
+            f"(LOG({_w(p)}) - LOG(self._rescale_factor['{p}']) + "
+            f"({_back(p)}))" for p in "ab") + ")"],
+)
